@@ -68,6 +68,13 @@ def r1(ctx):
                         if r is None and _default_retry(t) is True:
                             sites[k] = (True, '', f, e)
                             continue
+                        # on a path that has established `retry` to be false, passing nothing (or False) IS forwarding
+                        rfalse = p.st.facts.get(('truthy', V('param', 'retry', f.module))) is False or any(
+                            x.kind == 'TEST' and x.seq < e.seq and x.d['val'].k == 'param' and x.d['val'].a[0] == 'retry'
+                            and not x.d['truth'] for x in p.trace)
+                        if rfalse and (r is None or (r.is_const and not r.val)) and _default_retry(t) in (False, None):
+                            sites.setdefault(k, (True, '', f, e))
+                            continue
                         sites[k] = (_strong(r, True),
                                     '%s(retry=...) calls %s without forwarding retry (passes %r): with retry=True the '
                                     'call can still raise Timeout' % (f.qual, t.qual, r), f, e)
@@ -314,4 +321,76 @@ def r4(ctx):
         obs.append(Ob('R4', '%s.%s/no-lock' % (cls, m), bad is None,
                       '%s.%s opens a transaction or writes: lookups that need no write must keep working while another '
                       'client holds the lock' % (cls, m), f.loc(), fmt_trace(bad.trace) if bad else None))
+    return obs
+
+
+# ---------------------------------------------------------------------- R5
+@rule('R5', floor=2, title='busy-retry loops (retry executor, pragma loop of reset) keep retrying a locked database until their deadline')
+def r5(ctx):
+    """After `except sqlite3.OperationalError` for 'database is locked' the loop must raise only when
+    (clock now) - (clock before the loop) exceeds the limit, and otherwise sleep and try again.  A reversed test or a
+    mis-computed elapsed time turns "retry for 60 seconds" into "fail at once" (or never give up)."""
+    obs = []
+    cands = []
+    rp = ctx.prog.roles.get('sql_retry_prop')
+    for f in ctx.prog.all_funcs():
+        if f.module != 'core':
+            continue
+        src = ast.unparse(f.node)
+        if 'database is locked' in src and f.nested == {} or (rp is not None and f.parent is rp):
+            if 'database is locked' in src:
+                cands.append(f)
+    for f in cands:
+        ok, why, n, undecided = True, '', 0, False
+        for p in ctx.paths(f, 'default'):
+            tr = p.trace
+            for i, e in enumerate(tr):
+                if e.kind != 'CATCH' or e.d.get('typ') != 'sqlite3.OperationalError':
+                    continue
+                seg = []
+                for x in tr[i + 1:]:
+                    if x.kind in ('CATCH', 'LOOP') and x is not e:
+                        seg.append(x)
+                        break
+                    seg.append(x)
+                tests = [x for x in seg if x.kind == 'TEST' and x.d['val'].k == 'cmp']
+                dl = [x for x in tests if x.d['val'].a[0] in (('Gt',), ('GtE',), ('Lt',), ('LtE',))
+                      and any(y.k == 'now' for z in x.d['val'].a[1] for y in values_in(z))]
+                if not dl:
+                    continue
+                t = dl[0]
+                op = t.d['val'].a[0][0]
+                a, b = t.d['val'].a[1]
+                if a.k == 'term' and len(a.a[1]) == 2 and all(z.k == 'now' for z in a.a[1]) and a.a[0] != 'Sub':
+                    n += 1
+                    ok, why = False, 'the elapsed time is computed with %s instead of a difference of two clock values' % a.a[0]
+                    continue
+                if not (a.k == 'term' and a.a[0] == 'Sub' and len(a.a[1]) == 2 and all(z.k == 'now' for z in a.a[1])
+                        and b.is_const and isinstance(b.val, (int, float))):
+                    undecided = True
+                    continue
+                later, earlier = a.a[1]
+                n += 1
+                if not (later.a[0] > e.seq > earlier.a[0]):
+                    ok, why = False, 'the elapsed time is not (clock read after the failure) - (clock read before the loop)'
+                exceeded = t.d['truth'] if op in ('Gt', 'GtE') else not t.d['truth']
+                after = tr[t.seq + 1:]
+                raised = bool(after) and after[0].kind == 'RAISE'
+                slept = any(x.kind == 'EXT' and x.d['name'] == 'time.sleep' for x in seg if x.seq > t.seq)
+                if exceeded and not raised:
+                    ok, why = False, 'the loop goes on although the deadline has passed'
+                if not exceeded and (raised or not slept):
+                    ok, why = False, 'the loop gives up (or spins without sleeping) although the deadline has not passed'
+                if b.val <= 0:
+                    ok, why = False, 'the retry deadline is not positive'
+        if n == 0 and undecided:
+            obs.append(Ob('R5', '%s/deadline' % f.qual.replace('core.', ''), True, 'not decided: deadline test of an '
+                          'unrecognised shape', f.loc(), nontrivial=False))
+        else:
+            obs.append(Ob('R5', '%s/deadline' % f.qual.replace('core.', ''), ok and n > 0,
+                          '%s: %s - statements that must wait for a busy database (schema set-up, reset, pragmas) fail '
+                          'immediately or never time out' % (f.qual, why or 'no deadline test found after the busy '
+                                                            'handler'), f.loc()))
+    if not obs:
+        raise AnalysisError('R5: no busy-retry loop found')
     return obs
